@@ -8,6 +8,7 @@ import Driver.Conc
 import Driver.Sw
 import Driver.Stall
 import Driver.CommitMutex
+import Driver.L0Halt
 open Driver
 
 structure DState where
@@ -52,7 +53,10 @@ def step (s : DState) (line : String) : DState × String :=
                   | none =>
                     match cmCmd ws with
                     | some out => (s, out)
-                    | none => (s, "bad-op")
+                    | none =>
+                      match l0Cmd ws with
+                      | some out => (s, out)
+                      | none => (s, "bad-op")
 
 partial def loop (h : IO.FS.Stream) (out : IO.FS.Stream) (s : DState) : IO Unit := do
   let line ← h.getLine
